@@ -24,6 +24,40 @@ def attr(name):
     return T.raw_op('ATTR', ARGS, T.const(name))
 
 
+def _choice_facts(p, ev):
+    """What argparse guarantees about a destination declared with `choices=`: after parsing, its value is one of the
+    choices or the declared default (argparse does not check defaults that are not strings against the choices)."""
+    from ..evalr import Frame
+    fpa = p.get_function('__main__.parse_args')
+    calls, _ = _add_argument_calls(fpa, p)
+    facts = Facts()
+    for own, names, kw, line in calls:
+        if 'choices' not in kw or not names:
+            continue
+        fr = Frame(fpa, {}, Facts(), fpa.module, None, 0)
+        try:
+            ch = ev.expr(kw['choices'], fr)
+            dflt = ev.expr(kw['default'], fr) if 'default' in kw else T.NONE
+        except Exception:
+            continue
+        items = list(ch[1]) if T.tag(ch) in ('list', 'tuple') else None
+        if items is None or not all(T.is_const(x) for x in items):
+            continue
+        vals = list(items)
+        if T.is_const(dflt) and dflt not in vals:
+            vals.append(dflt)
+        elif not T.is_const(dflt):
+            # argparse.SUPPRESS: the attribute is then absent, not of some other value - nothing to add
+            if not (isinstance(kw.get('default'), ast.Attribute) and kw['default'].attr == 'SUPPRESS'):
+                continue
+        a = attr(_dest(names) if 'dest' not in kw or not isinstance(kw['dest'], ast.Constant) else kw['dest'].value)
+        c = T.FALSE
+        for x in vals:
+            c = T.or_(c, T.eq(a, x))
+        facts = facts.add(c)
+    return facts
+
+
 def main_paths(p):
     """Abstractly evaluate main() with the wallet API summarised; return one record per path."""
     summ = dict(X.DEFAULT_SUMMARIES)
@@ -51,10 +85,11 @@ def main_paths(p):
     for kind in ('export_wallet', 'pprint', 'export_wasabi', 'json', 'wasabi_json', 'export_to_file'):
         summ['paper_wallet.PaperWallet.' + kind] = sink(kind)
     ev = Evaluator(p, 'ecdsa', summaries=summ)
-    v, f = ev.call_function('__main__.main', [])
+    given = _choice_facts(p, ev)
+    v, f = ev.call_function('__main__.main', [], facts=given)
     out = []
     main_paths.argv = list(argv_seen)
-    for cs, leaf in leaves(v):
+    for cs, leaf in leaves(v, conds=tuple(given), _known=set(given)):
         cmd = None
         for c in cs:
             if T.is_op(c, 'EQ') and attr('command') in c[2:]:
@@ -100,6 +135,56 @@ def main_paths(p):
             rec.update(kind='return')
         out.append(rec)
     return out
+
+
+def all_sink_calls(p):
+    """Second evaluation of main() in which a sink returns normally: every call that emits wallet data is recorded with
+    the must-facts of its call site (the branch conditions that lead to it), including calls that come *after* another
+    sink - which the first evaluation, where a sink ends the path, cannot see."""
+    summ = dict(X.DEFAULT_SUMMARIES)
+    parser = S('parser', type='argparser')
+    summ['__main__.parse_args'] = lambda ev, fi, env, facts: (T.tup([parser, ARGS]), facts)
+
+    def ctor(name):
+        def f(ev, fi, env, facts):
+            kw = tuple(sorted((k, v) for k, v in env.items() if k != fi.params[0]))
+            return S('wallet', cls=PW, ctor=name, recv=env[fi.params[0]], kwargs=kw), facts
+        return f
+    for name in ('new_wallet', 'from_extended_key', 'from_mnemonic', 'from_bip39_seed_hex', 'from_entropy_hex',
+                 'from_bip39_seed_bytes', 'from_entropy_bits'):
+        summ['base_wallet.BaseWallet.' + name] = ctor(name)
+    summ['paper_wallet.PaperWallet.generate'] = lambda ev, fi, env, facts: (
+        T.raw_op('GENERATE', *[env[q] for q in fi.params]), facts)
+    summ['__main__.paranoia_mode'] = lambda ev, fi, env, facts: (T.raw_op('PARANOIA', env[fi.params[0]]), facts)
+    recs = []
+
+    def sink(kind):
+        def f(ev, fi, env, facts):
+            recs.append((kind, dict(env), set(facts)))
+            return T.NONE, facts
+        return f
+    for kind in ('export_wallet', 'pprint', 'export_wasabi', 'export_to_file'):
+        summ['paper_wallet.PaperWallet.' + kind] = sink(kind)
+    ev = Evaluator(p, 'ecdsa', summaries=summ)
+    ev.call_function('__main__.main', [], facts=_choice_facts(p, ev))
+    return recs
+
+
+def _consistent(fa, fb):
+    """can the two fact sets hold on one run?  (no literal of one negated in the other, no two different constants for
+    one value)"""
+    both = set(fa) | set(fb)
+    eqs = {}
+    for c in both:
+        if T.not_(c) in both:
+            return False
+        if T.is_op(c, 'EQ') and len(c) == 4:
+            for x, y in ((c[2], c[3]), (c[3], c[2])):
+                if T.is_const(y) and not T.is_const(x):
+                    if x in eqs and eqs[x] != y:
+                        return False
+                    eqs[x] = y
+    return True
 
 
 def _add_argument_calls(fi, p=None):
@@ -182,6 +267,7 @@ def run(ctx):
     paths = main_paths(p)
     with ctx.obligation('C20.DISPATCH', '__main__.main', None, fmain.where) as ob:
         seen = set()
+        refusals = []
         for rec in paths:
             cmd = rec['command']
             if rec['kind'] == 'sink':
@@ -220,13 +306,25 @@ def run(ctx):
                 same_term(ob, rec['env'].get('self'), wallet, 'the sink is invoked on the wallet that generated the data', fmain.where)
             elif rec['kind'] == 'exit':
                 st = rec['status']
-                ob.require(cmd is None or cmd not in CTORS, 'a known command ends in an exit', fmain.where, found=cmd)
-                ob.require(T.is_const(st) and isinstance(st[1], int) and st[1] != 0,
-                           'an unknown/missing command must stop with a non-zero status', fmain.where, found=T.show(st))
+                # stopping before anything was emitted is one of the two outcomes the property allows, for any command -
+                # provided the status is non-zero (a string status is printed to stderr and means 1)
+                ob.require(T.is_const(st) and ((isinstance(st[1], int) and not isinstance(st[1], bool) and st[1] != 0)
+                                               or (isinstance(st[1], str) and st[1] != '')),
+                           'a run that stops without output (command %r) must stop with a non-zero status' % (cmd,), fmain.where,
+                           found=T.show(st))
+                if cmd in CTORS:
+                    refusals.append((cmd, rec))
+            elif rec['kind'] == 'raise':
+                # an uncaught exception before any sink: status 1, nothing on stdout, no file
+                if cmd in CTORS:
+                    refusals.append((cmd, rec))
             else:
-                ob.require(False, 'main() has a path that neither emits the wallet nor exits (%s)' % rec['kind'], fmain.where,
-                           found=T.show(rec['leaf'], maxdepth=3))
+                ob.require(False, 'main() has a path that neither emits the wallet nor stops with a non-zero status (%s)' % rec['kind'],
+                           fmain.where, found=T.show(rec['leaf'], maxdepth=3))
         ob.require(seen == set(CTORS), 'every sub-command reaches wallet output', fmain.where, expected=sorted(CTORS), found=sorted(seen))
+        if refusals:
+            ob.note('main() itself refuses some runs of known commands before any output (allowed: non-zero status, nothing emitted): %s'
+                    % sorted({c for c, _ in refusals}))
         argv = getattr(main_paths, 'argv', [])
         ob.require(len(argv) == 1 and argv[0] == T.slice_(T.sym('sys.argv', type='list'), T.const(1), T.NONE),
                    'main() parses sys.argv[1:] (the arguments without the program name)', fmain.where,
@@ -235,6 +333,33 @@ def run(ctx):
         # no handler in main swallows errors
         ob.require(not [n for n in ast.walk(fmain.node) if isinstance(n, ast.Try)], 'main() contains no try/except that could swallow '
                    'an error (an exception ends the process with a non-zero status)', fmain.where)
+    with ctx.obligation('C20.ONESINK', '__main__.main', None, fmain.where) as ob:
+        calls = all_sink_calls(p)
+        ob.require(len(calls) >= 2, 'main() calls the stdout sink and the file sink', fmain.where, found=len(calls))
+        fc, pc = T.truth(attr('file')), T.truth(attr('paranoia'))
+        for kind, env, facts in calls:
+            ob.evaluations += 1
+            with_file = [True] if fc in facts else ([False] if T.not_(fc) in facts else [True, False])
+            if kind == 'pprint':
+                ob.require(with_file == [False], 'with --file the wallet data (also) reaches standard output: a pprint call is '
+                           'reachable while args.file is set', fmain.where, found=sorted(T.show(x, maxdepth=3) for x in facts if 'file' in T.show(x)))
+            else:
+                ob.require(with_file == [True], 'without --file a file export is reachable (%s)' % kind, fmain.where)
+            if kind == 'export_to_file':
+                continue
+            data = env.get('data')
+            flags = [True] if pc in facts else ([False] if T.not_(pc) in facts else [True, False])
+            for flag in flags:
+                d = T.assume(data, set(facts) | {pc if flag else T.not_(pc)}) if data is not None and data != T.NONE else None
+                ok = d is not None and (T.is_op(d, 'PARANOIA') and T.is_op(d[2], 'GENERATE') if flag else T.is_op(d, 'GENERATE'))
+                ob.require(ok, 'every emitting call gets the generated data, filtered exactly when --paranoia is on (%s, paranoia %s)'
+                           % (kind, 'on' if flag else 'off'), fmain.where,
+                           found=T.show(d, maxdepth=3) if d is not None else 'no data argument: the sink falls back to a fresh, unfiltered generate()')
+        for i, (k1, _, f1) in enumerate(calls):
+            for k2, _, f2 in calls[i + 1:]:
+                if _consistent(f1, f2):
+                    ob.require(False, 'two emitting calls (%s, %s) are reachable on one run: the wallet is emitted more than once' % (k1, k2),
+                               fmain.where)
     # ---------------------------------------------------------------- parse_args table
     fpa = p.get_function('__main__.parse_args')
     with ctx.obligation('C20.ARGS', '__main__.parse_args', None, fpa.where) as ob:
